@@ -1508,6 +1508,9 @@ func (self *ReplicationServer) RecvProcess() error {
 			if err != nil {
 				return err
 			}
+			if len(buf) < 6 {
+				return errors.New("data frame too short")
+			}
 			lockResult.Data = protocol.NewLockResultCommandDataFromOriginBytes(buf)
 		}
 		err = self.aof.loadLockAck(lockResult)
